@@ -89,9 +89,26 @@ package deps
 //@   ensures imp(m != nil, isNil(err) && bytes(*m) == bytes(data) && (ref(*m) == old(ref(*m)) || ref(*m) >= old(nextRef()) || len(data) == 0) && bytesframe(*m))
 
 //@ # json.Unmarshal into a store.valueObject: RawMessage members are nil or a copy of a complete JSON value
+//@ # what encoding/json decodes from a text into the members rid / soft / action / data is left uninterpreted (T4):
+//@ # jvObj: the text decodes without error; jvHas*: the member is present and not null; the rest are the decoded values
+//@ uninterpreted func jvObj(s string) bool
+//@ uninterpreted func jvHasRID(s string) bool
+//@ uninterpreted func jvRIDa(s string) arr
+//@ uninterpreted func jvRIDn(s string) int
+//@ uninterpreted func jvSoft(s string) bool
+//@ uninterpreted func jvHasAction(s string) bool
+//@ uninterpreted func jvActa(s string) arr
+//@ uninterpreted func jvActn(s string) int
+//@ uninterpreted func jvHasData(s string) bool
+//@ uninterpreted func jvData0(s string) int
 //@ trusted func json.UnmarshalValueObject(data []byte, v interface{}) (err error)
 //@   modifies *v, alloc, bytes
 //@   ensures imp(!isNil(err), !typeIs(err, "*res.Error"))
+//@   ensures ok: isNil(err) == jvObj(old(bytes(data)))
+//@   ensures rid: imp(isNil(err) && typeIs(v, "*store.valueObject"), (ptrOf(v, "*store.valueObject").RID != nil) == jvHasRID(old(bytes(data))) && imp(jvHasRID(old(bytes(data))), same(*ptrOf(v, "*store.valueObject").RID, strOf(jvRIDa(old(bytes(data))), jvRIDn(old(bytes(data)))))))
+//@   ensures soft: imp(isNil(err) && typeIs(v, "*store.valueObject"), ptrOf(v, "*store.valueObject").Soft == jvSoft(old(bytes(data))))
+//@   ensures action: imp(isNil(err) && typeIs(v, "*store.valueObject"), (ptrOf(v, "*store.valueObject").Action != nil) == jvHasAction(old(bytes(data))) && imp(jvHasAction(old(bytes(data))), same(*ptrOf(v, "*store.valueObject").Action, strOf(jvActa(old(bytes(data))), jvActn(old(bytes(data)))))))
+//@   ensures data: imp(isNil(err) && typeIs(v, "*store.valueObject"), (ref(ptrOf(v, "*store.valueObject").Data) != 0) == jvHasData(old(bytes(data))) && imp(jvHasData(old(bytes(data))), ptrOf(v, "*store.valueObject").Data[0] == jvData0(old(bytes(data)))))
 //@   ensures raw: imp(typeIs(v, "*store.valueObject") && ref(ptrOf(v, "*store.valueObject").Data) != 0, len(ptrOf(v, "*store.valueObject").Data) >= 1 && ref(ptrOf(v, "*store.valueObject").Data) >= old(nextRef()))
 
 
